@@ -137,7 +137,7 @@ def run(R, env):
             if ns == "ibc_waiting_for_reply":
                 R.ob("C07.R3", "reply:removes-record-of-msg.id", rid(o["args"][2]), "removes key %s" % fmt(o["args"][2])[:80], loc=o["loc"], fn=rk)
             if ns == "inflight":
-                k, v = o["args"][2], o["args"][3]
+                k, v = o["args"][2], shared.written_agg(prog, o)
                 seq_ok = k[0] == "field" and k[2] == "sequence" and any(x[0] == "call" and x[1].endswith("Message::decode") for x in subterms(k))
                 good = v[0] == "agg" and same(agg_field(v, "sequence"), k) and seq_ok
                 am, rv_ = agg_field(v, "amount"), agg_field(v, "receiver")
@@ -405,7 +405,7 @@ def run(R, env):
                 if o["kind"] == "w" and ns_of(prog, o["args"][0]) == ns and "migrations::states" not in (storage_item_of(o["args"][0]) or ""):
                     who.setdefault(site, o)
                     if ns == "inflight" and o["op"] == "save":
-                        k, v = o["args"][2], o["args"][3]
+                        k, v = o["args"][2], shared.written_agg(prog, o)
                         ks = None
                         for base, d in (shared.write_value_alternatives(prog, o, "inflight") or struct_deltas(v)):
                             if base[0] == "agg":
